@@ -400,8 +400,47 @@ pub fn run(args: &Args) -> ! {
     ctx.run_enum("shipped_and_negative", &cases, true, check_run);
     ctx.run_prop(
         "generated",
-        ctx.tier().pick(96, 1_600),
-        || (gb::bld(), 0u8..3, prop_oneof![1 => Just(false), 2 => Just(true)], prop_oneof![Just(None), Just(Some("info".to_string())), Just(Some("warn".to_string()))]).prop_map(|(b, extra, use_extra, rust_log)| RunCase { dir: Dir::Generated { b: Box::new(b), extra }, use_extra, rust_log }),
+        ctx.tier().pick(144, 1_600),
+        || (gb::bld(), 0u8..3, prop_oneof![1 => Just(false), 2 => Just(true)], prop_oneof![Just(None), Just(Some("info".to_string())), Just(Some("warn".to_string()))], 0u8..6).prop_map(|(mut b, extra, use_extra, rust_log, short)| {
+            // one project in six has a yearly schedule that stops before 31 December (a hand-edited file): the
+            // library converts it (the year is simply shorter), so the tool has to export it as well
+            if short == 0 {
+                // two occupancy profiles: one follows a full year, the other the shortened one; the spaces alternate
+                // between them
+                if b.years.len() < 2 {
+                    let mut y = b.years[0].clone();
+                    y.name = "HA_9".into();
+                    b.years.push(y);
+                }
+                let ny = b.years.len();
+                let target = |k: usize, n: usize| -> u16 { (((k as u32) * 65536 + 32768) / n as u32).min(65535) as u16 };
+                let short_idx = ny - 1;
+                if b.years[short_idx].periods.len() < 2 {
+                    b.years[short_idx].periods = vec![(6, 30, 0), (12, 31, 0)];
+                }
+                b.years[short_idx].periods.pop();
+                if b.space_conds.len() < 2 {
+                    let mut c2 = b.space_conds[0].clone();
+                    c2.name = "Uso 9".into();
+                    b.space_conds.push(c2);
+                }
+                let nc = b.space_conds.len();
+                b.space_conds[0].people_sch = target(0, ny);
+                b.space_conds[0].area_per_person = 10.0;
+                b.space_conds[nc - 1].people_sch = target(short_idx, ny);
+                b.space_conds[nc - 1].area_per_person = 12.0;
+                let mut k = 0usize;
+                for fl in b.floors.iter_mut() {
+                    for sp in fl.spaces.iter_mut() {
+                        sp.space_conds = Some(if k % 2 == 0 { target(nc - 1, nc) } else { target(0, nc) });
+                        sp.stype = "CONDITIONED".into();
+                        sp.insidete = Some(true);
+                        k += 1;
+                    }
+                }
+            }
+            RunCase { dir: Dir::Generated { b: Box::new(b), extra }, use_extra, rust_log }
+        }),
         check_run,
     );
     // thor: big project then small one into the same file, and every shipped project alone
